@@ -146,12 +146,21 @@ def belowCount {n : Nat} (S : Mat n n Rat) : Option Nat := Cert.inertiaPos S 0
 /-- `σ·B − A` as an exact rational matrix: entries rounded to 64 significant bits of the largest one, lower triangle
     mirrored (scaling by a power of two changes no sign) -/
 def pencilRat (n : Nat) (a : Array (Array Fix)) (b : Option (Array (Array Fix))) (σ : Fix) : DMat n n Rat :=
+  -- congruence by a positive power-of-two diagonal `E` (inertia is unchanged): `E_i ≈ B_ii^{-1/2}`, so that a pencil
+  -- whose metric spans many orders of magnitude is not flattened by the rounding below
+  let e : Array Int := Array.ofFn fun i : Fin n =>
+    match b with
+    | none => (0 : Int)
+    | some b =>
+      let m := ((b[i.1]!)[i.1]!).m.natAbs
+      if m = 0 then 0 else -(((Nat.log2 m : Int) - (Fix.S : Int)) / 2)
+  let scaleBy (x : Fix) (k : Int) : Fix := if 0 ≤ k then ⟨x.m * pow2 k.toNat⟩ else ⟨x.m >>> (-k).toNat⟩
   let S : Array (Array Fix) := Array.ofFn fun i : Fin n => Array.ofFn fun j : Fin n =>
     let (r, c) := if j.1 ≤ i.1 then (i.1, j.1) else (j.1, i.1)
     let bij : Fix := match b with
       | none => if r = c then 1 else 0
       | some b => (b[r]!)[c]!
-    σ * bij - (a[r]!)[c]!
+    scaleBy (σ * bij - (a[r]!)[c]!) (e[r]! + e[c]!)
   let I := toIntMat S
   DMat.ofFn fun i j => (((I[i.1]!)[j.1]! : Int) : Rat)
 
